@@ -316,6 +316,13 @@ class Engine:
         elif tag == "D" and sub == "v" and isinstance(k.v, KEnum):
             kk = z3.Const("wf_k", sort_of(k.k))
             st.assume(qforall([r, kk], enum_ok(arr[r][kk], k.v), patterns=[arr[r][kk]]), quantified=True)
+        if tag in ("F", "G") and k is KVal:
+            st.assume(qforall([r], val_wf(arr[r], bound), patterns=[arr[r]]), quantified=True)
+        elif tag == "L" and sub == "e" and k.elem is KVal:
+            st.assume(qforall([r, i], val_wf(arr[r][i], bound), patterns=[arr[r][i]]), quantified=True)
+        elif tag == "D" and sub == "v" and k.v is KVal:
+            kk = z3.Const("wf_k", sort_of(k.k))
+            st.assume(qforall([r, kk], val_wf(arr[r][kk], bound), patterns=[arr[r][kk]]), quantified=True)
         if tag in ("F", "G"):
             if is_refkind(k):
                 body = z3.And((arr[r] >= 0) if k.nullable else (arr[r] > 0), arr[r] < bound)
